@@ -32,6 +32,9 @@ atom("o_psl_http", "origins", "valid", ["http://*.com", "http://*.co.uk.:8080"],
 atom("o_psl_deep", "origins", "valid", ["https://*.k12.ma.us", "https://*.pvt.k12.ma.us", "https://*.s3.dualstack.us-east-1.amazonaws.com",
                                         "https://*.execute-api.cn-north-1.amazonaws.com.cn:8080", "https://*.foo.ck", "https://*.foo.kobe.jp.",
                                         "https://*.us-east-1.compute.amazonaws.com:*", "https://*.internal", "https://*.foo.sch.uk"], wild=True, psl=True)
+# a public-suffix wildcard SHADOWED by a broader wildcard of a registrable (non-suffix) parent domain listed before it
+atom("o_wild_aws", "origins", "valid", ["https://*.amazonaws.com:*", "https://*.amazonaws.com"], wild=True)
+atom("o_psl_aws", "origins", "valid", ["https://*.s3.amazonaws.com", "https://*.us-east-1.compute.amazonaws.com"], wild=True, psl=True)
 # look-alikes that are NOT public suffixes: exception rules of the list (`!www.ck`, `!city.kobe.jp`) and registrable domains under deep suffixes
 atom("o_wild_notpsl", "origins", "valid", ["https://*.www.ck", "https://*.city.kobe.jp", "https://*.school.pvt.k12.ma.us",
                                            "https://*.compute.amazonaws.com", "https://*.blogspot.co.uk", "https://*.sch.uk"], wild=True)
